@@ -20,6 +20,8 @@ python3 translate/rs2lean_oneshot.py /repo lean/RSVerif/Gen/SrcOneShot.lean || t
 python3 translate/rs2lean_iter.py /repo lean/RSVerif/Gen/SrcIter.lean || true
 python3 translate/rs2lean_kernel.py /repo lean/RSVerif/Gen/SrcKernel.lean || true
 python3 translate/rs2lean_shards.py /repo lean/RSVerif/Gen/SrcShards.lean || true
+python3 translate/rs2lean_glue.py /repo lean/RSVerif/Gen/SrcGlue.lean || true
+python3 translate/rs2lean_select.py /repo lean/RSVerif/Gen/SrcSelect.lean || true
 python3 translate/rs2lean_utils.py /repo lean/RSVerif/Gen/SrcUtils.lean || true
 mods=""
 for f in lean/RSVerif/Properties/C*.lean; do
